@@ -183,11 +183,14 @@ func bank(c *core.Ctx, work string, idx int, managed bool) {
 // C02 serializable snapshot isolation.
 func C02(c *core.Ctx) {
 	c.Rule("recorded histories of read-write transactions on 5-10 keys (read-modify-write, write-skew and blind-write shapes, long-running transactions " +
-		"held across hundreds of commits, normal and managed mode) with delays at commit points; oracle (a): no committed T has a committed W with " +
+		"held across hundreds of commits, normal and managed mode) with delays at commit points; plus single-goroutine managed-mode scripts with several open transactions and NON-monotonic CommitAt timestamps judged by the exact must-reject/must-accept rule; oracle (a): no committed T has a committed W with " +
 		"keys(W) intersecting reads(T) and readTs(T) < ts(W) < ts(T); oracle (b): every ErrConflict is justified by such a W; rejected commits leave no marker; " +
 		"plus a bank workload whose auditors assert the balance sum on every snapshot; distinct = (mode, options, outcome class) combinations that contained both commits and conflicts")
 	work := c.WorkDir()
 	defer os.RemoveAll(work)
+	for i := 0; i < c.Pick(12, 120); i++ {
+		c02ManagedScripts(c, work, i)
+	}
 	idx := 0
 	for round := 0; round < c.Pick(1, 5); round++ {
 		for _, managed := range []bool{false, true} {
